@@ -10,6 +10,12 @@ Theorem C16_credential_accept_iff :
 Proof. exact sd_validate_accept_iff. Qed.
 Print Assumptions C16_credential_accept_iff.
 
+(* the signature stage over ANY list of trusted issuers: the issuer is the document whose id is the DID of the kid / method id, and the
+   credential's issuer must be that same DID (not merely some trusted issuer) *)
+Theorem C16_verify_signature_iff :
+  forall t issuers o c, sd_verify_signature t issuers o = inl c <-> (signed_by (sd_tok t) issuers o c /\ sd_decodes t = true).
+Proof. exact sd_verify_signature_ok. Qed.
+
 (* the key-binding JWT: accepted exactly when all of the listed conditions hold *)
 Theorem C16_kb_accept_iff :
   forall now t holder o c, validate_kb now t holder o = Ok c <-> kb_accept now t holder o c.
@@ -25,3 +31,4 @@ Theorem C16_kb_pinned_panics :
   validate_kb_pinned 0 ex_kb ex_holder ex_ko = Panic /\ validate_kb 0 ex_kb ex_holder ex_ko = Err KSignature.
 Proof. exact kb_pinned_panics. Qed.
 Print Assumptions C16_kb_pinned_panics.
+Print Assumptions C16_verify_signature_iff.
